@@ -110,7 +110,6 @@ func (sm *SyncMap[K, V]) DeleteExist(key K) bool {
 		defer sm.lock.Unlock()
 	}
 	if _, exist := sm.data[key]; !exist {
-		sm.lock.Unlock()
 		return exist
 	}
 	delete(sm.data, key)
